@@ -228,11 +228,12 @@ def main():
     out = []
     for c in cases:
         try:
-            signal.alarm(int(c.get('timeout', 60)))
+            # repeating timer: lcapy's bare `except:` clauses can swallow a single alarm
+            signal.setitimer(signal.ITIMER_REAL, float(c.get('timeout', 45)), 3.0)
             try:
                 out.append(run(c))
             finally:
-                signal.alarm(0)
+                signal.setitimer(signal.ITIMER_REAL, 0)
         except CaseTimeout:
             out.append({'error': 'timeout: case exceeded its time budget'})
         except Exception as e:
